@@ -59,7 +59,7 @@ impl ExponentialBackoff {
     /// Returns the backoff duration for the given attempt.
     pub fn duration(&self, attempt: u32) -> Duration {
         let backoff = self.config.minimum_delay_secs * self.config.factor.powi(attempt as i32);
-        let backoff = backoff + rand::random::<f32>() * self.config.jitter_secs;
+        let backoff = backoff + crate::verif::rand_f32() * self.config.jitter_secs;
         Duration::from_secs_f32(backoff.min(self.config.maximum_delay_secs))
     }
 }
